@@ -42,6 +42,10 @@ def check(run, model, tier):
     run.rule('TRUTH.queue', 'a queue handed to the fabric is never tested for truth (an empty queue is falsy: the answer would depend on pending events)')
     from sa import ident
     ident.check_queue_truth(run, model, 'TRUTH.queue', classes=('ActiveFabricSource', 'ActiveObject'), floor=2)
+    run.rule('KEYDEP.subscribed-eval', 'finite-domain evaluation of the fabric\'s subscribed() query: identity membership of this queue in the registry of its kind and signal')
+    from sa import fabric as _fabric
+    if not _fabric.eval_subscribed(run, model, 'KEYDEP.subscribed-eval'):
+        run.note('ActiveFabricSource.subscribed is outside the pure fragment of the evaluator: KEYDEP.subscribed decides by def-use only')
     cg = callgraph(model)
     ao = model.cls('ActiveObject')
     fab = model.cls('ActiveFabricSource')
